@@ -2,6 +2,7 @@
 from __future__ import annotations
 
 import itertools
+import re
 
 from ..wire import h1, ws
 from ..wire.h2raw import FrameBuilder, FrameReader, client_preface
@@ -29,11 +30,12 @@ B = {"type": "http.response.body", "body": b"abc", "more_body": True}
 BF = {"type": "http.response.body", "body": b"xyz", "more_body": False}
 BE = {"type": "http.response.body", "body": b"", "more_body": False}
 T = {"type": "http.response.trailers", "headers": [(b"x-t", b"1")], "more_trailers": False}
+TM = {"type": "http.response.trailers", "headers": [(b"x-t0", b"0")], "more_trailers": True}
 P = {"type": "http.response.push", "path": "/pushed", "headers": [(b"x-p", b"1")]}
 EH = {"type": "http.response.early_hint", "links": [b"</style.css>; rel=preload"]}
 U = {"type": "not.a.real.type"}
 EH_LINKS = {"eh-crlf": [b"</a.css>; rel=preload\r\nx-evil: 2"], "eh-nul": [b"</a\x00b>"], "eh-int": [5], "eh-lf-second": [b"</ok>", b"</b>\nx-evil: 3"]}
-HTTP_ALPHABET = [("S", S), ("S2", S2), ("S_TR", S_TR), ("B", B), ("BF", BF), ("BE", BE), ("T", T), ("P", P), ("EH", EH), ("U", U)]
+HTTP_ALPHABET = [("S", S), ("S2", S2), ("S_TR", S_TR), ("B", B), ("BF", BF), ("BE", BE), ("T", T), ("P", P), ("EH", EH), ("U", U), ("TM", TM)]
 
 # invalid payloads (for the start message unless noted)
 BAD_HEADERS = [
@@ -100,6 +102,11 @@ def gen(rng, tier):
             seqs.append(("http", base, (name, hdrs)))
     seqs.append(("http", (7,), ("push-path-bytes", None)))
     seqs.append(("http", (0, 7, 4), ("push-path-bytes", None)))
+    # ... and into the headers of a push that follows the response start (a new header ahead of the bad one: whatever the header
+    # compression has taken in of a block that is then refused is missing at the client - the probe's headers would show it)
+    for name, hdrs in BAD_HEADERS + EXOTIC_HEADERS:
+        seqs.append(("http", (0, 7, 4), ("push:" + name, [(b"x-new-%d" % len(seqs), b"1")] + list(hdrs))))
+        seqs.append(("http", (0, 7, 7, 4), ("push:" + name, [(b"x-new-%d" % len(seqs), b"1")] + list(hdrs))))
     # ... and into the trailers of a response that announced them (towards clients that take trailers and clients that do not)
     for name, hdrs in BAD_HEADERS:
         seqs.append(("http", (2, 4, 6), ("trailers:" + name, hdrs)))
@@ -166,6 +173,10 @@ def gen(rng, tier):
                         pass
                     elif sub[0].startswith("trailers:"):
                         if nm == "T":
+                            m["headers"] = sub[1]
+                            done_sub = True
+                    elif sub[0].startswith("push:"):
+                        if nm == "P":
                             m["headers"] = sub[1]
                             done_sub = True
                     elif sub[0] != "push-path-bytes" and sub[1] is not None and nm in ("S", "S2", "S_TR", "T", "P"):
@@ -537,6 +548,12 @@ def check(case, obs, tally):
                                 "detail": "stream %d: response header block with pseudo-headers %r (sequence %r, payload %s)" % (sid, pseudo, t["seq"], t["sub"])})
         for p in rx.pushes:
             heads.extend(p.get("headers") or [])
+        bad_names = [bytes(nme) for nme, _ in heads if not re.match(rb"^:?[!#$%&'*+\-.^_`|~0-9a-z]+$", bytes(nme))]
+        if bad_names:
+            # RFC 7540 8.1.2: a field name that is not a lower-case token makes the block malformed - a client treats that as a stream
+            # or connection error, whatever else the connection was carrying
+            out.append({"clause": "wire-prefix", "sig": "C12.wire/h2/malformed-header-name",
+                        "detail": "header names %r reached the client in a header block (sequence %r, payload %s)" % (bad_names[:3], t["seq"], t["sub"])})
         if t["kind"] == "http" and http_automaton(t["msgs"], proto, t.get("te"), final_state=True) == "CLOSED" and obs.closed_at is None:
             # the valid messages of the sequence add up to a complete response (whatever invalid ones were refused in between):
             # that response must be complete on the wire
@@ -549,6 +566,14 @@ def check(case, obs, tally):
         if obs.closed_at is None and not rx.errors() and rx.goaway is None:
             tally.clause("connection-intact")
             pr = rx.streams.get(3)
+            # ... decodably: header compression is connection state, a header block that was encoded and then not sent (or sent twice) shows
+            # in the *headers* of later responses - names and values come out as those of some other entry of the table
+            ph = sorted((bytes(a), bytes(b)) for a, b in (pr.final_headers() if pr is not None and pr.status is not None else []) if bytes(a) != b"date")
+            want_ph = sorted([(b"x-probe", b"1"), (b"server", b"hypercorn-h2")])
+            if pr is not None and pr.status == 200 and ph != want_ph:
+                out.append({"clause": "wire-prefix", "sig": "C12.wire/h2/connection-poisoned",
+                            "detail": "after the sequence %r (%s) the response to a later request on the same connection decodes to the headers %r, sent were %r "
+                                      "(header compression out of step)" % (t["seq"], t["sub"], ph, want_ph)})
             if pr is None or pr.status != 200 or bytes(pr.data) != b"probe" or pr.ended != 1:
                 out.append({"clause": "wire-prefix", "sig": "C12.wire/h2/connection-poisoned",
                             "detail": "after the sequence %r (%s) a later request on the same connection was not answered decodably: %r" % (
@@ -569,8 +594,8 @@ def _class(t, i):
     m = t["msgs"][i]
     ty = m["type"]
     if t["sub"] and ("headers" in m or "path" in m) and (t["sub"] in [n for n, _ in BAD_HEADERS] or t["sub"].startswith("accept:") or t["sub"].startswith("trailers:")
-                     or t["sub"] == "push-path-bytes"):
-        sub = t["sub"].replace("accept:", "").replace("trailers:", "")
+                     or t["sub"] == "push-path-bytes" or (t["sub"].startswith("push:") and t["sub"][5:] in [n for n, _ in BAD_HEADERS])):
+        sub = t["sub"].replace("accept:", "").replace("trailers:", "").replace("push:", "")
         if sub in ("crlf-val", "lf-val", "cr-val", "nul-val", "crlf-name", "nul-name", "crlf-val-memoryview", "nul-val-bytearray", "crlf-name-memoryview"):
             return "ctl-bytes-header"
         if sub in ("val-str", "name-str", "val-int", "val-none"):
